@@ -996,7 +996,7 @@ theorem sees_vecmon (n : ℕ) (v : VecMon α) (pre rows : List (List (Raw α))) 
     refine ⟨?_, ih _ (pre ++ [row]) (by simpa using vinv_step n [] v (pre.map VOp.step) (VOp.step row) hv)⟩
     intro i hi
     rw [range_map_getD n _ _ i hi]
-    refine ⟨rfl, rfl, fun _ => ?_⟩
+    refine ⟨fun _ => rfl, rfl, fun _ => ?_⟩
     obtain ⟨g1, g2⟩ := vinv_getD n v _ hv i hi
     rw [vtrace_steps] at g1 g2
     simp only [VecMon.step, List.map_map]
@@ -1047,7 +1047,7 @@ theorem sees_monitors (cfg : MonCfg) (rnd : α → α) (hk : cfg.resetKeys = [])
       rw [List.map_map, range_map_getD n _ _ i hi]
       simp only [Function.comp]
       rw [(key i hi).2]
-      exact ⟨rfl, rfl, fun _ => rfl⟩
+      exact ⟨fun _ => rfl, rfl, fun _ => rfl⟩
     · intro i hi
       rw [List.map_map, range_map_getD n _ _ i hi]
       simp only [Function.comp]
